@@ -2,12 +2,15 @@
    per-model energies exactly as the material factories do (OV.model.M_C08).  H is the displacement gradient passed to
    compute_energy_density; rotL Q H = Q(I+H)-I is a superposed rigid rotation, rotR Q H = (I+H)Q-I a rotation of the
    reference configuration; `rotation Q` is Q^T Q = Q Q^T = I, det Q = 1; JJ H = det(I+H).
-   lss / pw stand for TensorMath.log_sqrt_symm / pow_symm (not modelled): hypotheses LogSqrtSpec / PowSpec. *)
+   lss / pw stand for TensorMath.log_sqrt_symm / pow_symm: hypotheses LogSqrtSpec / PowSpec, which are THEOREMS (end of this file) for
+   the spectral functions V diag(f(lam)) V^T of model/M_C11s.v (lss_spec) and model/M_C08s.v (pw_spec) over every eigen-solver that
+   decomposes every symmetric matrix (solver_ok), in particular for lss_R / pw_R built on the total solver eigh_sym of proofs/L_C11e.v. *)
 From Coq Require Import Reals.
 From Coquelicot Require Import Coquelicot.
 From OV.base Require Import Num.
-From OV.model Require Import M_C08 M_C08b.
-From OV.proofs Require Import L_C08 L_C08b L_C08c.
+From OV.model Require Import M_C08 M_C08b M_C11s M_C08s.
+From OV.proofs Require Import L_C11s L_C11e L_C11u.
+From OV.proofs Require Import L_C08 L_C08b L_C08c L_C08d L_C08e L_C08s.
 Local Open Scope R_scope.
 Notation M := (mat R).
 
@@ -162,8 +165,13 @@ Proof. exact hv_rest_stress. Qed.
 Theorem C08_rest_stress_multibranch : forall lss, LogSqrtSpec lss -> LogSqrtDiffAtId lss ->
   forall D p dt, 0 < dt -> mb_taus_pos p -> is_derive (fun t => E_mb lss p mid mid mid dt (mscal t D)) 0 0.
 Proof. exact mb_rest_stress. Qed.
-(* NOT PROVED: zero stress at rest of J2 'seth hill' (needs the analogous hypothesis on pow_symm at the identity; same argument);
-   zero stress at rest of the phase-field model for phase <> 0 (not a rest state: the energy is not zero there either).
+(* zero stress at rest of J2 'seth hill' (strain (C^(1/4) - I)/(1/2) through pow_symm), under PowSpec (value I at I) and PowDiffAtId:
+   pow_symm(., m) is differentiable at the identity with derivative m * sym, along curves exactly as LogSqrtDiffAtId.  The harness checks
+   both on TensorMath.pow_symm (jax.jvp at I = m X for several m, difference quotients along C(t) = (I+tD)^T (I+tD)). *)
+Theorem C08_rest_stress_j2_seth_hill : forall pw, PowSpec pw -> PowDiffAtId pw ->
+  forall D p eqps, is_derive (fun t => E_j2_seth_hill pw p eqps mzero (mscal t D)) 0 0.
+Proof. exact j2_seth_hill_rest_stress. Qed.
+(* NOT PROVED: zero stress at rest of the phase-field model for phase <> 0 (not a rest state: the energy is not zero there either).
 
    Kirchhoff stress as a derivative statement, closed-form models: for every H with det F > 0 the explicit first Piola-Kirchhoff tensor
    P (P_neo_coupled, P_adagio, P_gent, P_le_gl: 2 dpsi/dI1 F + dpsi/dJ cof F, resp. F S) is the derivative of the energy
@@ -188,11 +196,82 @@ Proof. exact mbeq_kirchhoff. Qed.
 Theorem C08_kirchhoff_symmetric_linear_elastic_green_lagrange : forall p H,
   (forall D, is_derive (fun t => E_le_gl p (madd H (mscal t D))) 0 (mddot (P_le_gl p H) D)) /\ msym (mmul (P_le_gl p H) (mtr (defgrad H))).
 Proof. exact le_gl_kirchhoff. Qed.
-(* NOT PROVED: Kirchhoff-stress symmetry as a derivative statement for the models that go through log_sqrt_symm / pow_symm (it needs
-   differentiability of the spectral function at EVERY symmetric positive definite argument together with the equivariance of its
-   derivative -- C12's subject); for those only the algebraic form below and the jax.grad symmetry checks on the implementation. *)
+(* Kirchhoff-stress symmetry FROM OBJECTIVITY.  curve_diff E H l: E is differentiable at H along EVERY differentiable curve g through H
+   (g 0 = H, component-wise derivative D at 0): d/dt E(g t) at 0 = l D.  If E is invariant under every superposed rotation at H and
+   curve-differentiable at H with gradient P, then tau = P F^T is symmetric (differentiate along the rotations about the three axes). *)
+Theorem C08_kirchhoff_symmetric_from_objectivity : forall (E : M -> R) (H P : M),
+  (forall Q, rotation Q -> E (rotL Q H) = E H) -> curve_diff E H (mddot P) -> msym (mmul P (mtr (defgrad H))).
+Proof. exact kirchhoff_from_objectivity. Qed.
+Theorem C08_curve_derivative_gives_line_derivative : forall E H P, curve_diff E H (mddot P) ->
+  forall D, is_derive (fun t => E (madd H (mscal t D))) 0 (mddot P D).
+Proof. exact curve_diff_gives_lines. Qed.
+(* The models that go through the spectral tensor functions: under the hypothesis that the spectral function is (Hadamard) differentiable
+   at the ONE argument it is called on (LogSqrtDiffAt lss C0 L / PowDiffAt pw m C0 L: L linear, and for every differentiable curve C of
+   symmetric matrices with C 0 = C0, t |-> lss (C t) has derivative L (C' 0) at 0) the energy has a gradient P at H (first Piola-Kirchhoff
+   stress: d/dt E(g t) = P : g'(0) along every differentiable curve through H) and tau = P F^T is symmetric.  No equivariance of L and
+   no LogSqrtSpec / PowSpec is needed (objectivity of these energies holds for every lss / pw).  Every admissible internal state. *)
+Theorem C08_kirchhoff_symmetric_linear_elastic_logarithmic : forall lss L p H, 0 < JJ H -> LogSqrtDiffAt lss (CC H) L ->
+  exists P : M, curve_diff (E_le_log lss p) H (mddot P) /\ msym (mmul P (mtr (defgrad H))).
+Proof. exact le_log_kirchhoff. Qed.
+Theorem C08_kirchhoff_symmetric_j2_logarithmic : forall lss L p eqps Fp H, 0 < JJ H -> mdet Fp <> 0 -> LogSqrtDiffAt lss (CCe H (tinv Fp)) L ->
+  exists P : M, curve_diff (E_j2_log lss p eqps Fp) H (mddot P) /\ msym (mmul P (mtr (defgrad H))).
+Proof. exact j2_log_kirchhoff. Qed.
+Theorem C08_kirchhoff_symmetric_j2_seth_hill : forall pw L p eqps Ep H, PowDiffAt pw (/ 4) (CC H) L ->
+  exists P : M, curve_diff (E_j2_seth_hill pw p eqps Ep) H (mddot P) /\ msym (mmul P (mtr (defgrad H))).
+Proof. exact j2_seth_hill_kirchhoff. Qed.
+Theorem C08_kirchhoff_symmetric_phasefield_undamaged : forall lss L p g0 g1 g2 H, 0 < JJ H -> LogSqrtDiffAt lss (CC H) L ->
+  exists P : M, curve_diff (E_pf_log lss p 0 g0 g1 g2) H (mddot P) /\ msym (mmul P (mtr (defgrad H))).
+Proof. exact pf_log_kirchhoff. Qed.
+Theorem C08_kirchhoff_symmetric_hyperviscoelastic : forall lss L p Fv dt H, 0 < JJ H -> mdet Fv <> 0 -> 0 < dt ->
+  (let '(_, _, _, tau) := p in 0 < tau) -> LogSqrtDiffAt lss (CCe H (linv Fv)) L ->
+  exists P : M, curve_diff (E_hv lss p Fv dt) H (mddot P) /\ msym (mmul P (mtr (defgrad H))).
+Proof. exact hv_kirchhoff. Qed.
+Theorem C08_kirchhoff_symmetric_multibranch : forall lss L1 L2 L3 p Fv1 Fv2 Fv3 dt H,
+  0 < JJ H -> mdet Fv1 <> 0 -> mdet Fv2 <> 0 -> mdet Fv3 <> 0 -> 0 < dt -> mb_taus_pos p ->
+  LogSqrtDiffAt lss (CCe H (linv Fv1)) L1 -> LogSqrtDiffAt lss (CCe H (linv Fv2)) L2 -> LogSqrtDiffAt lss (CCe H (linv Fv3)) L3 ->
+  exists P : M, curve_diff (E_mb lss p Fv1 Fv2 Fv3 dt) H (mddot P) /\ msym (mmul P (mtr (defgrad H))).
+Proof. exact mb_kirchhoff. Qed.
+(* NOT PROVED: the differentiability hypotheses LogSqrtDiffAt / PowDiffAt themselves for the spectral functions at a general symmetric
+   positive definite argument (Daleckii-Krein; C10/C12's subject) -- they are tied to TensorMath.log_sqrt_symm / pow_symm by the stream
+   spec_diff_checks (jax.jvp is linear and equals the difference quotient along symmetric curves through C0 = F^T F / (F Fv^-1)^T (F Fv^-1));
+   Kirchhoff symmetry of the phase-field model for phase <> 0 at det F = 1 exactly (kink of the volumetric split).  The algebraic form: *)
 Theorem C08_kirchhoff_symmetric_form_partial : forall F S : M, msym S -> msym (mscal 2 (mmul F (mmul S (mtr F)))).
 Proof. exact kirchhoff_symmetric_form. Qed.
+
+(* ---- the hypotheses LogSqrtSpec / PowSpec are theorems for the spectral functions (solver_ok eigh: eigh returns an orthogonal
+        eigen-decomposition V diag(lam) V^T of every symmetric matrix; such a solver exists: eigh_sym, the spectral theorem of L_C11e.v) ---- *)
+Theorem C08_log_sqrt_spec_of_spectral_function : forall eigh : M -> @eig R, solver_ok eigh -> LogSqrtSpec (lss_spec eigh).
+Proof. exact lss_spec_LogSqrtSpec. Qed.
+Theorem C08_pow_spec_of_spectral_function : forall eigh : M -> @eig R, solver_ok eigh -> PowSpec (pw_spec eigh).
+Proof. exact pw_spec_PowSpec. Qed.
+Theorem C08_spectral_functions_exist : solver_ok eigh_sym /\ LogSqrtSpec lss_R /\ PowSpec pw_R.
+Proof. exact spectral_functions_exist. Qed.
+Theorem C08_pow_canonical : forall eigh (A : M) m, msym A -> eigh_ok eigh A -> pw_spec eigh A m = pw_R A m.
+Proof. exact pw_R_canonical. Qed.
+(* hence, with lss_R / pw_R, isotropy and the rest energies hold with no hypothesis on the tensor functions *)
+Theorem C08_isotropic_linear_elastic_logarithmic_unconditional : forall p Q H, rotation Q -> E_le_log lss_R p (rotR Q H) = E_le_log lss_R p H.
+Proof. exact unconditional_le_log_isotropic. Qed.
+Theorem C08_isotropic_j2_logarithmic_unconditional : forall p eqps Fp Q H, rotation Q -> mdet Fp <> 0 ->
+  E_j2_log lss_R p eqps (conj Q Fp) (rotR Q H) = E_j2_log lss_R p eqps Fp H.
+Proof. exact unconditional_j2_log_isotropic. Qed.
+Theorem C08_isotropic_j2_seth_hill_unconditional : forall p eqps Ep Q H, rotation Q ->
+  E_j2_seth_hill pw_R p eqps (conj Q Ep) (rotR Q H) = E_j2_seth_hill pw_R p eqps Ep H.
+Proof. exact unconditional_j2_seth_hill_isotropic. Qed.
+Theorem C08_isotropic_hyperviscoelastic_unconditional : forall p Fv dt Q H, rotation Q -> 0 < JJ H -> mdet Fv <> 0 -> 0 < dt ->
+  (let '(_, _, _, tau) := p in 0 < tau) -> E_hv lss_R p (conj Q Fv) dt (rotR Q H) = E_hv lss_R p Fv dt H.
+Proof. exact unconditional_hv_isotropic. Qed.
+Theorem C08_isotropic_multibranch_unconditional : forall p Fv1 Fv2 Fv3 dt Q H,
+  rotation Q -> 0 < JJ H -> mdet Fv1 <> 0 -> mdet Fv2 <> 0 -> mdet Fv3 <> 0 -> 0 < dt -> mb_taus_pos p ->
+  E_mb lss_R p (conj Q Fv1) (conj Q Fv2) (conj Q Fv3) dt (rotR Q H) = E_mb lss_R p Fv1 Fv2 Fv3 dt H.
+Proof. exact unconditional_mb_isotropic. Qed.
+Theorem C08_isotropic_phasefield_unconditional : forall p phase g0 g1 g2 Q H, rotation Q ->
+  E_pf_log lss_R p phase (m00 Q * g0 + m10 Q * g1 + m20 Q * g2) (m01 Q * g0 + m11 Q * g1 + m21 Q * g2)
+           (m02 Q * g0 + m12 Q * g1 + m22 Q * g2) (rotR Q H) = E_pf_log lss_R p phase g0 g1 g2 H.
+Proof. exact unconditional_pf_log_isotropic. Qed.
+Theorem C08_rest_energies_unconditional : forall p4_ p5_ p6_ p8_ hvp eqps dt, 0 < dt -> (let '(_, _, _, tau) := hvp in 0 < tau) -> mb_taus_pos p8_ ->
+  E_le_log lss_R p4_ mzero = 0 /\ E_j2_log lss_R p5_ eqps mid mzero = 0 /\ E_j2_seth_hill pw_R p5_ eqps mzero mzero = 0 /\
+  E_hv lss_R hvp mid dt mzero = 0 /\ E_mb lss_R p8_ mid mid mid dt mzero = 0 /\ E_pf_log lss_R p6_ 0 0 0 0 mzero = 0.
+Proof. exact unconditional_rest_energies. Qed.
 
 Example C08_nonvacuous :
   rotation (mk 0 (-1) 0 1 0 0 0 0 1) /\ 0 < JJ (mk (/ 2) (/ 4) 0 0 (/ 3) 0 0 0 0) /\ LogSqrtSpec (fun A => mscal (/ 2) (msub A mid))
@@ -207,6 +286,12 @@ Example C08_nonvacuous_derivative_hypotheses :
   /\ (0 < JJ (mk (/ 2) (/ 4) 0 0 (/ 3) 0 0 0 0) /\ (30 : R) <> 0 /\ 0 < gent_u 30 (I1 mzero) (JJ mzero)).
 Proof. exact nonvacuous_witness_diff. Qed.
 
+Example C08_nonvacuous_kirchhoff_hypotheses :
+  (LogSqrtDiffAt (fun A => mscal (/ 2) (msub A mid)) (CC (mk (/ 2) (/ 4) 0 0 (/ 3) 0 0 0 0)) (mscal (/ 2))
+   /\ PowDiffAt (fun A m => madd mid (mscal m (msub A mid))) (/ 4) (CC (mk (/ 2) (/ 4) 0 0 (/ 3) 0 0 0 0)) (mscal (/ 4)))
+  /\ (PowSpec pw_poly /\ PowDiffAtId pw_poly) /\ 0 < JJ (mk (/ 2) (/ 4) 0 0 (/ 3) 0 0 0 0).
+Proof. exact nonvacuous_witness_kirchhoff. Qed.
+
 Print Assumptions C08_objective_neohookean_adagio.
 Print Assumptions C08_isotropic_linear_elastic_logarithmic.
 Print Assumptions C08_isotropic_hyperviscoelastic_virgin.
@@ -216,3 +301,6 @@ Print Assumptions C08_isotropic_phasefield.
 Print Assumptions C08_isotropic_multibranch.
 Print Assumptions C08_rest_stress_multibranch.
 Print Assumptions C08_kirchhoff_symmetric_gent.
+Print Assumptions C08_rest_stress_j2_seth_hill.
+Print Assumptions C08_kirchhoff_symmetric_multibranch.
+Print Assumptions C08_spectral_functions_exist.
